@@ -16,6 +16,9 @@ structure St where
   v : Variant
   w : World
   cur : Bool        -- which of the two clients the ops address (`use a|b`)
+  tssA : Bool := false     -- a client of another type (TSS) sits under the first / second name
+  tssB : Bool := false
+  ch : Option (Nat × Nat) := none   -- `consheight`: the redundant ConsensusState.Height of the next proposal
 
 def hexNat (s : String) : Option Nat :=
   if s = "-" then some 0 else
@@ -98,6 +101,32 @@ def step (st : St) (line : String) : St × String :=
       match createClient (envOf true) chain tr h with
       | .ok s => ({ st with w := st.w.set st.cur s }, "ok " ++ dump s)
       | _ => (st, "err")
+    | _, _, _ => (st, "bad-op")
+  | ["world"] => ({ st with w := { a := none, b := none }, cur := false, tssA := false, tssB := false, ch := none }, "ok")
+  | ["consheight", x] =>
+    let ch := match x.splitOn "-" with
+      | [r, n] => (match r.toNat?, n.toNat? with | some r, some n => some (r, n) | _, _ => none)
+      | _ => none
+    ({ st with ch := ch }, "ok")
+  | ["tss"] =>
+    -- CreateClientProposal of a TSS client under the current name (only if no client is there)
+    let has := (st.w.get st.cur).isSome || (if st.cur then st.tssB else st.tssA)
+    if has then (st, "err") else ((if st.cur then { st with tssB := true } else { st with tssA := true }), "ok")
+  | "upgrade" :: chain :: trusting :: rest =>
+    match chain.toNat?, trusting.toNat?, parseHeader rest, st.w.get st.cur with
+    | some chain, some tr, some (h, _), some s =>
+      (match upgradeClient (envOf true) s chain tr h st.ch with
+       | .ok s' => ({ st with w := st.w.set st.cur s', ch := none }, "ok " ++ dump s')
+       | _ => ({ st with ch := none }, "err"))
+    | some _, some _, some _, none => ({ st with ch := none }, "err")
+    | _, _, _, _ => (st, "bad-op")
+  | "toggle" :: chain :: trusting :: rest =>
+    match chain.toNat?, trusting.toNat?, parseHeader rest with
+    | some chain, some tr, some (h, _) =>
+      let other := (if st.cur then st.tssB else st.tssA)
+      (match toggleClient (envOf true) other chain tr h st.ch with
+       | .ok s' => ((if st.cur then { st with w := st.w.set st.cur s', ch := none, tssB := false } else { st with w := st.w.set st.cur s', ch := none, tssA := false }), "ok " ++ dump s')
+       | _ => ({ st with ch := none }, "err"))
     | _, _, _ => (st, "bad-op")
   | ["use", x] =>
     let i := x == "b"
